@@ -298,12 +298,16 @@ theorem balanced_sl (cfg : CompCfg) {n : Node} (hsl : StraightLine n) :
     exact balanced_push _ (hk.mono he) (by omega)
   | const m v =>
     intro p0 code p1 hp h consts he
-    simp only [compileNode] at h
-    obtain ⟨⟨k, p2⟩, h1, h⟩ := cr_bind_ok h
-    cr_fin h
-    obtain ⟨hp2, _, hk⟩ := mkConst_any hp h1
-    have := (mkConst_index_lt hp h1)
-    exact balanced_push _ (hk.mono he) (by omega)
+    unfold compileNode at h
+    split at h
+    · simp only [Except.ok.injEq, Prod.mk.injEq] at h
+      obtain ⟨rfl, rfl⟩ := h
+      exact balanced_lit _ _ (Or.inl rfl)
+    · obtain ⟨⟨k, p2⟩, h1, h⟩ := cr_bind_ok h
+      cr_fin h
+      obtain ⟨hp2, _, hk⟩ := mkConst_any hp h1
+      have := (mkConst_index_lt hp h1)
+      exact balanced_push _ (hk.mono he) (by omega)
   | unary m op x _ ih =>
     intro p0 code p1 hp h consts he
     simp only [compileNode] at h
